@@ -59,14 +59,16 @@ def handle (op : String) (req : Json) : R Json := do
     let injective := pairwiseDistinct (acc.map (fun e => sortKey v timegm e.name))
       && pairwiseDistinct (acc.map (fun e => acqKey v e.name))
     let covers := (List.range acc.length).all (fun i => pi.contains i)
-    let stamps := v != .tofwerk || acc.all (fun e => (stampFields e.name.toList).length == 6)
+    let stamps := v != .tofwerk || acc.all (fun e => validStampB (stampFields e.name.toList))
+    let hkey := acc.all (fun p => acc.all (fun q =>
+      keyLe (sortKey v timegm p.name) (sortKey v timegm q.name) == keyLe (acqKey v p.name) (acqKey v q.name)))
     let header := match acc with
       | [] => true
       | e :: es => es.all (fun x => x.line.names == e.line.names)
     pure (jObj [("vendor", jStr (vendorName v)), ("model", jResult mech), ("spec", jResult spec),
                 ("accepted", jList jStr (acc.map (·.name))),
                 ("order", jList jStr ((byRank (fun e => acqKey v e.name) acc).map (·.name))),
-                ("hyp", jBool (injective && covers && stamps && header))])
+                ("hyp", jBool (injective && covers && stamps && header && hkey))])
   | "c04.names" =>
     let names ← getList asStr req "names"
     pure (jObj [("model", jList (fun (n : String) =>
